@@ -347,6 +347,137 @@ def gen_lifecycle_history(rng, hid, writers):
     return {"id": hid, "collections": colls, "writers": writers, "ops": ops}
 
 
+# ------------------------------------------------------------------------------ interleaved requests
+# A status request is not atomic: do_render_status issues up to n qinfo RPCs and every RPC is a scheduling point of
+# the gevent server, so other clients of the queue act BETWEEN the reads of one request.  The op
+# ["istatus", c, w, {"k": op}] is one request for (c, w) with `op` applied before its k-th qinfo.
+
+def interleave_family(hid0, writers):
+    """Enumerated: every phase of the two jobs of a collection (prefix) x every single queue event another client can
+    cause (on the render job, the fetch job, the clock, the queue server) x the RPC of the request it precedes (k)."""
+    out = []
+    fin_ok = {"url": "http://h/u", "size": 12}
+    n = 0
+    for wi in (0, 1):
+        w, w2 = writers[wi], writers[(wi + 2) % len(writers)]
+
+        def fam(c):
+            rj, mz, rj2 = "%s:render-%s" % (c, w), "%s:makezip" % c, "%s:render-%s" % (c, w2)
+            fetch = [["render", c, w], ["pull", "makezip"]]
+            fetched = fetch + [["finish", mz, None, None]]
+            running = fetched + [["pull", "render"]]
+            prefixes = [[], [["render", c, w]], fetch, fetch + [["setinfo", mz, {"status": "fetching", "progress": 10}]], fetched,
+                        fetch + [["finish", mz, None, "fetch failed"]], running, running + [["setinfo", rj, {"status": "rendering"}]],
+                        fetch + [["pull", "render"]], running + [["finish", rj, fin_ok, None]],
+                        running + [["finish", rj, fin_ok, None], ["dropdead", 0]],
+                        running + [["finish", rj, None, "boom"], ["dropdead", 0]], running + [["kill", rj]]]
+            events = [["finish", rj, fin_ok, None], ["finish", rj, dict(fin_ok, suggested_filename="Mot\u00f6rhead"), ""],
+                      ["finish", rj, None, "boom"], ["finish", rj, {"url": "http://h/partial", "size": 1}, {"code": 3}],
+                      ["kill", rj], ["tick", 1300], ["setinfo", rj, {"status": "rendering", "progress": 50}], ["restart"],
+                      ["dropdead", 3700], ["dropdead", 11], ["render", c, w], ["pull", "render"], ["pull", "makezip"],
+                      ["finish", mz, None, None], ["finish", mz, None, "fetch failed"], ["kill", mz],
+                      ["setinfo", mz, {"status": "parsing"}], ["finish", rj2, fin_ok, None], ["dropmark", rj], ["wait", rj]]
+            return prefixes, events
+        np_, ne = [len(x) for x in fam("c")]
+        for pi in range(np_):
+            for ei in range(ne):
+                if wi == 1 and (pi + ei) % 3:        # second writer pair: a third of the grid
+                    continue
+                for k in (1, 2, 3):
+                    c = "%016x" % (0xC0C0000000000000 + hid0 + n)
+                    prefixes, events = fam(c)
+                    out.append({"collections": [c], "writers": [w, w2], "ops": prefixes[pi] + [["istatus", c, w, {str(k): events[ei]}]]})
+                    n += 1
+    return out
+
+
+def interleave(rng, h, p=0.6):
+    """The same history with (a fraction p of) its ops happening INSIDE a status request for the collection/writer
+    they concern: before the k-th qinfo of that request; sometimes two consecutive ops inside one request (k1 < k2).
+    The effect on the queue is that of the plain history."""
+    colls, writers = h["collections"], h["writers"]
+    last_w = {}
+    ops = []
+    src = [o for o in h["ops"] if o[0] != "istatus"]
+    i = 0
+    while i < len(src):
+        op = src[i]
+        i += 1
+        if op[0] == "render":
+            last_w[op[1]] = op[2]
+        if rng.random() >= p:
+            ops.append(op)
+            continue
+        jid = op[1] if op[0] in ("setinfo", "finish", "kill", "push", "dropmark", "wait") else None
+        if op[0] == "render":
+            c, w = op[1], op[2]
+        elif jid is not None and ":" in jid:
+            c, tail = jid.split(":", 1)
+            w = tail[len("render-"):] if tail.startswith("render-") and tail[len("render-"):] in writers else None
+        else:
+            c, w = colls[0] if rng.random() < 0.85 else colls[-1], None
+        if c not in colls:
+            c = colls[0]
+        if w is None:
+            w = last_w.get(c) or rng.choice(writers[:3])
+        elif rng.random() < 0.1:
+            w = rng.choice(writers)            # a request for another writer of the collection while this job changes
+        k = rng.choice([1, 2, 2, 3, 3, 4])
+        inj = {str(k): op}
+        if i < len(src) and rng.random() < 0.25 and src[i][0] != "render":
+            k2 = k + rng.choice([1, 1, 2])
+            inj[str(k2)] = src[i]
+            i += 1
+        ops.append(["istatus", c, w, inj])
+    return {"collections": colls, "writers": writers, "ops": ops}
+
+
+def inter_event_name(op):
+    if op[0] == "finish":
+        return "finish-" + ("err" if op[3] else "ok") + ("-mz" if op[1].endswith(":makezip") else "")
+    if op[0] in ("kill", "setinfo", "dropmark", "wait", "push"):
+        return op[0] + ("-mz" if op[1].endswith(":makezip") else "")
+    return op[0]
+
+
+def oracle_inter(sink, where, inter, c, w, writers_tbl, replay):
+    """The oracle for a request during which the queue changed.  The property speaks of `the job's real state`; a
+    request that overlaps a state change may report the state before or after it (both are real states of the job
+    during the request), and the two jobs are read by separate RPCs.  So: the answer must be justified by SOME state
+    the render job had and SOME state the fetch job had between the start and the end of the request (same clauses as
+    the sequential oracle).  An answer that no moment of the request justifies -- e.g. `finished` for a job that was
+    running at the start and failed/killed/timed out at the end -- is reported, judged against the state at the END."""
+    resp, states = inter["resp"], inter["states"]
+    rs, ms = [], []
+    for r, m in states:
+        if r not in rs:
+            rs.append(r)
+        if m not in ms:
+            ms.append(m)
+    for rj in reversed(rs):
+        for mj in reversed(ms):
+            t = Sink()
+            st = oracle(t, where, resp, c, w, rj, mj, writers_tbl, replay)
+            if not t.items:
+                return st
+    rj, mj = states[-1]
+    t = Sink()
+    st = oracle(t, where, resp, c, w, rj, mj, writers_tbl, replay)
+    for it in t.items:
+        sink.hit(it["fingerprint"], it["what"] + " at the end of the request; queue events before qinfo #%s of this request; no state the jobs "
+                 "had between the start and the end of the request justifies the answer (render job went through: %s)" %
+                 (",".join(str(k) for k in inter["fired"]) or "-", " -> ".join(brief(r) for r in rs)), it["replay"])
+    return st
+
+
+def brief(j):
+    if j is None:
+        return "absent"
+    if not j["done"]:
+        return "not done"
+    return "failed(%r)" % (j["error"],) if j["error"] else "finished ok"
+
+
 def enc_event(e):
     k = e[0]
     if k == "P":
@@ -385,10 +516,27 @@ def check(run):
                 "workq: random ones (render, pull, setinfo, finish ok/err/malformed, kill, clock tick + handletimeouts, dropdead, push, dropjobs, "
                 "waitjobs, queue restart) and life-cycle ones (2-4 render rounds of one collection: fetch, render, finish ok/err/kill/timeout, "
                 "then expiry by the watchdog after the ttl / restart / drop, then re-render); status polled for 2 collections x all writers "
-                "after EVERY op by one long-lived process; (c) all 0x110000 code points for the Unicode facts, get_content_disposition on "
+                "after EVERY op by one long-lived process; (b') INTERLEAVED REQUESTS: a status request is up to two qinfo RPCs and every RPC is a "
+                "scheduling point of the gevent server, so the op [istatus, c, w, {k: op}] is ONE real do_render_status call whose proxy applies the "
+                "queue op `op` before the request's k-th qinfo (k = 1..4; ops whose k the request does not reach are applied right after it). "
+                "Generated as (i) an enumerated family: 13 phases of the two jobs (absent .. fetched .. running with/without info .. finished, "
+                "failed, killed, deadline stamped) x 20 single events of another client (finish ok/falsy error/error/dict error, kill, timeout "
+                "tick, setinfo, restart, watchdog drop, re-render, pull, the same on the fetch job, finish of another writer's job, dropjobs/"
+                "waitjobs) x k in {1,2,3}, for two writers (the second on a third of the grid); (ii) every sampled life-cycle history (thorough: 2000 of them) and 40 "
+                "(thorough: 2000) random histories once more with 60% of their ops moved INSIDE a status request for the collection/writer "
+                "they concern (k drawn from 1..4, a quarter of them with the next op inside the same request at a later k). DECISION on what an "
+                "interleaved answer must satisfy (the property speaks of the job's real state, and is silent on concurrency): the answer must be "
+                "justified -- by exactly the clauses of the sequential oracle -- by SOME state the render job had and SOME state the fetch job had "
+                "between the start and the end of the request (the two jobs are read by separate RPCs, so no atomic snapshot of both is demanded; "
+                "a stale `progress` from the first read while the job finishes before the second is faithful to the state at the first read and "
+                "accepted). An answer no moment of the request justifies -- e.g. `finished` for a job that was running at the start and is "
+                "failed/killed/timed out at the end -- is a violation, reported against the state at the END of the request. Such hits are "
+                "minimised: earlier interleaved requests flattened to plain ops, ops delta-debugged, injected events reduced to a 1-minimal set, "
+                "each moved to the smallest k that still fails; (c) all 0x110000 code points for the Unicode facts, get_content_disposition on "
                 "every 97th (thorough: every) code point and on every code point whose NFKD contains ASCII in 5 contexts. distinct = distinct "
                 "(snapshots, writer) resp. (history, step, collection, writer) resp. (code point, context); non-trivial = render job present, "
-                "or makezip job present, i.e. not the empty queue. Oracle hits are re-run alone in a fresh process and delta-debugged "
+                "or makezip job present, i.e. not the empty queue; an interleaved request is distinct by (history, step, states during the request, answer) "
+                "and non-trivial when an event was injected before its 2nd or a later RPC. Oracle hits are re-run alone in a fresh process and delta-debugged "
                 "(ops, then filename characters) before they are reported")
     run.trusted = ["Coq 8.16.1 kernel (coqc); vm_compute only in the finite writer-table obligation and the Examples",
                    "extraction (ExtrOcamlBasic directives only) + ocaml/c19/driver.ml + vt/harness/c19_codec.py (token protocol)",
@@ -397,13 +545,23 @@ def check(run):
                    "vt/gen/c19_writers.py (name2writer table, separator class, progress text regenerated from nserve.py)",
                    "unicodedata.normalize('NFKD') as an oracle (hypothesis nfkd_no_new_controls, checked over all code points at run time); "
                    "str.isspace table and utf-8/percent-encoding restated in the model and compared on the real code",
-                   "the in-process proxy replacing rpcclient.ServerProxy (JSON round trip of arguments/results)",
+                   "the in-process proxy replacing rpcclient.ServerProxy (JSON round trip of arguments/results); for interleaved requests: that "
+                   "another client's RPC served between two qinfo RPCs of a request is what the injected op does (the real server is a gevent "
+                   "StreamServer: one greenlet per connection, switches only at socket operations, every rpc_* method runs without yielding -- "
+                   "blocking qpull/qwait excepted, which the harness never lets block)",
+                   "coq/C19/ModelReq.v: status_req / exec, the status command with its reads explicit (hand-written; tied to the real request by "
+                   "answer AND sequence of job ids asked on every interleaved request and -- the id sequence -- on every snapshot case)",
                    "C19_reachable / C19_status_after_*: coq/C16/Model.v, the queue model of C16/C17/C18 (tied to the real qs code by THEIR "
                    "differential runs, not by this check), and the decoding of its value codes into JSON values (Section variables; only "
                    "`exactly error code 0 is falsy` is assumed)"]
     run.assumptions = ["job snapshots reach do_render_status as JSON values (None/bool/int/str/list/dict; floats not modelled)",
                        "suggested filenames contain no control characters and no lone surrogates (the property's quantifier)",
-                       "bottle/WSGI dispatch, collid2qserve routing and the TCP RPC layer are not covered"]
+                       "bottle/WSGI dispatch, collid2qserve routing and the TCP RPC layer are not covered",
+                       "the Coq theorems about `status`/`do_render_status` take the snapshots of ONE queue state; C19_request_* / C19_interleaved_* "
+                       "state what holds when the reads of a request see different states (answer = function of the snapshots read; finished/"
+                       "failed derive from the single read of the render job). That the snapshots read by one request are mutually consistent is "
+                       "NOT proved (nserve takes no atomic snapshot): it is the harness' part -- events injected between the RPCs of real requests, "
+                       "one event per gap, answers judged against the states during the request"]
     src = core.snapshot()
     run.obligation("snapshot of the working tree taken and extensions built", os.path.isdir(src), src)
     gen_out = {}
@@ -411,6 +569,13 @@ def check(run):
     def gen():
         gen_out["writers"] = generate(src)
     proofs_ok = run.check_proofs("C19", gen=gen, dirs=["C16"])
+    try:
+        sites = c19_writers.qinfo_sites(open(os.path.join(src, "mwlib", "core", "nserve.py"), encoding="utf8").read())
+    except Exception as e:
+        sites = "not readable: %s" % e
+    # not part of the translator on purpose: when this fails the model still runs (ties + monitor), the verdict is fail-closed
+    run.obligation("do_render_status has exactly the two queue reads the models have (render job, then the fetch job)",
+                   sites == ["{collection_id}:render-{writer}", "{collection_id}:makezip"], "qinfo call sites in source order: %r" % (sites,))
     model = None
     if "writers" in gen_out:
         wt = gen_out["writers"]
@@ -500,6 +665,9 @@ def _check(run, src, model, writers, writers_tbl):
             dis.append("job id asked %r, expected %r" % (r["asked"], want_asked))
         if any(a not in ("%s:render-%s" % (c["c"], c["w"]), "%s:makezip" % c["c"]) for a in r["asked"]):
             dis.append("do_render_status asked for a foreign job id: %r" % (r["asked"],))
+        if c["w"] in writers_tbl and r["asked"] not in (want_asked, want_asked + ["%s:makezip" % c["c"]]):
+            # the model (status / status_req) reads the render job once and then at most the fetch job once
+            dis.append("do_render_status issued the qinfo sequence %r; the model reads %r then at most the makezip job" % (r["asked"], want_asked))
         if reachable_shape(c["render"]) and reachable_shape(c["makezip"]):
             # the property quantifies over histories: the oracle applies to snapshots a queue can serve
             shape = dict(c)
@@ -525,6 +693,16 @@ def _check(run, src, model, writers, writers_tbl):
         hists.append(dict(gen_history(run.rng, len(hists), writers), kind="random"))
     for _ in range(nl):
         hists.append(dict(gen_lifecycle_history(run.rng, len(hists), writers), kind="lifecycle"))
+    # interleaved requests: the enumerated family, and interleaved variants of sampled life-cycle / random histories
+    base_l = [h for h in hists if h["kind"] == "lifecycle"]
+    base_r = [h for h in hists if h["kind"] == "random"]
+    for h in interleave_family(len(hists), writers):
+        hists.append(dict(h, kind="interleave-family"))
+    ni_l, ni_r = (len(base_l), 40) if tier == "quick" else (2000, 2000)
+    for h in base_l[:ni_l]:
+        hists.append(dict(interleave(run.rng, h), kind="interleaved-lifecycle"))
+    for h in base_r[:ni_r]:
+        hists.append(dict(interleave(run.rng, h), kind="interleaved-random"))
     for i, h in enumerate(hists):
         h["id"] = i
     nshard = 1 if tier == "quick" else min(16, core.NPROC)
@@ -542,7 +720,9 @@ def _check(run, src, model, writers, writers_tbl):
                 results[o["id"]] = o
     if len(results) != len(hists):
         raise RuntimeError("c19_impl hist: %d/%d histories" % (len(results), len(hists)))
-    dis_life, dis_stat = [], []
+    dis_life, dis_stat, dis_inter = [], [], []
+    ninter = 0
+    dist.update({"inter_events": {}, "inter_reads": {}, "inter_states": {}})
     nsteps = 0
     nstatus = 0
     for h in hists:
@@ -556,6 +736,18 @@ def _check(run, src, model, writers, writers_tbl):
             for a in stp["applied"]:
                 lines.append(enc_op(a))
                 plan.append(("op", si, None))
+            if "inter" in stp:
+                rd = stp["inter"]["reads"]
+                ic, iw = stp["op"][1], stp["op"][2]
+                want = ["%s:render-%s" % (ic, iw), "%s:makezip" % ic]
+                if [x[0] for x in rd] == want[:len(rd)]:
+                    r1 = rd[0][1] if len(rd) > 0 else None
+                    m2 = rd[1][1] if len(rd) > 1 else None
+                    lines.append("RSTATUS %s %s %s %s %s" % (cc.enc_str(ic), cc.enc_str(iw), cc.enc_snapopt(r1), cc.enc_snapopt(m2),
+                                                            cc.enc_tbl(cc.nfkd_table(names_in(r1)))))
+                else:
+                    lines.append("FLUSHLESS")            # answered with ERR: the reads do not have the model's shape
+                plan.append(("inter", si, None))
             names = []
             for s in stp["snaps"].values():
                 names += names_in(s)
@@ -574,6 +766,32 @@ def _check(run, src, model, writers, writers_tbl):
             if kind == "op":
                 if m is not None and m.strip() != "ok":
                     dis_life.append("history %d step %d: model driver said %r" % (h["id"], si, m))
+                continue
+            if kind == "inter":
+                it = stp["inter"]
+                ic, iw = stp["op"][1], stp["op"][2]
+                ninter += 1
+                for k_, o_ in stp["op"][3].items():
+                    nm = "k%s:%s%s" % (k_, inter_event_name(o_), "" if int(k_) in it["fired"] else ":late")
+                    dist["inter_events"][nm] = dist["inter_events"].get(nm, 0) + 1
+                dist["inter_reads"][len(it["reads"])] = dist["inter_reads"].get(len(it["reads"]), 0) + 1
+                run.count((h["id"], si, "inter", cc.canon(it["states"]), cc.canon(it["resp"])), nontrivial=any(k_ >= 2 for k_ in it["fired"]))
+                if m is not None:
+                    rcanon = (cc.canon_real_response(it["resp"], ic, iw), [x[0] for x in it["reads"]])
+                    try:
+                        head, _, tail = m.partition(" ASKED ")
+                        rdr = cc.Reader(tail)
+                        mcanon = (cc.dec_response(head), [rdr.str() for _ in range(int(rdr.next()))])
+                    except Exception as e:
+                        mcanon = "model output unreadable: %r (%s)" % (m[:100], e)
+                    if rcanon != mcanon and not bad:
+                        bad = True
+                        dis_inter.append("history %s step %d: request read %s and answered %r; model (status_req on these reads): %r" %
+                                         (json.dumps(h["ops"][:si + 1]), si, json.dumps(it["reads"])[:300], rcanon[0], mcanon))
+                hh = {"collections": h["collections"], "writers": h["writers"], "ops": h["ops"][:si + 1]}
+                st = oracle_inter(sink, "inter:hist:%s" % cc.canon(it["states"])[:300], it, ic, iw, writers_tbl,
+                                  {"histories": [hh], "query": [ic, iw], "inter": True, "_seq": ("hist", h["id"])})
+                dist["inter_states"][st] = dist["inter_states"].get(st, 0) + 1
                 continue
             if kind == "qinfo":
                 if m is None:
@@ -610,6 +828,8 @@ def _check(run, src, model, writers, writers_tbl):
     if model is not None:
         run.tie("job life cycle: Coq `run` vs qs.jobs.workq behind QPlugin (qinfo of every tracked job after every op)", nsteps, dis_life)
         run.tie("do_render_status bound to the real workq along histories: model on the model store vs real", nstatus, dis_stat)
+        run.tie("one status request with queue events between its qinfo RPCs: the resumption model status_req run on the snapshots the "
+                "request read (answer AND sequence of job ids asked) vs real", ninter, dis_inter)
 
     # ---------------- (c) Unicode facts, exhaustively
     step = 97 if tier == "quick" else 1
@@ -687,6 +907,16 @@ def run_replay(src, writers_tbl, rp):
         stp = rs[-1]["steps"][-1]
         c, w = rp["query"]
         key = "%s|%s" % (c, w)
+        if rp.get("inter"):
+            # the request judged is the last op itself: a status request with queue events between its qinfo RPCs
+            if "inter" not in stp or stp["op"][1:3] != [c, w]:
+                return sink
+            it = stp["inter"]
+            sink.observed = {"histories": [h["ops"] for h in hs], "request": stp["op"], "qinfo_reads": [[a, cc.snap4(b)] for a, b in it["reads"]],
+                             "injected_before_qinfo": it["fired"], "not_reached": it["late"],
+                             "states_during_request(render job, makezip job)": it["states"], "status": it["resp"]}
+            oracle_inter(sink, "inter:replay", it, c, w, writers_tbl, rp)
+            return sink
         if key not in stp["status"]:
             return sink
         r = stp["status"][key]
@@ -762,6 +992,8 @@ def settle_hits(run, sink, src, writers_tbl, cases, hists, nshard):
     try:
         for kind in sorted(by_kind)[:5]:
             budget = [260]
+            if kind.endswith(":inter"):      # interleaved requests: start from the shortest failing history (stable sort: deterministic)
+                by_kind[kind] = sorted(by_kind[kind], key=lambda x: sum(len(hh["ops"]) for hh in x["replay"]["histories"]))
             first = by_kind[kind][0]
             rp = dict(first["replay"])
             seq = rp.pop("_seq", None)
@@ -796,6 +1028,8 @@ def settle_hits(run, sink, src, writers_tbl, cases, hists, nshard):
                 rp.pop("_seq", None)
                 run.hit(kind + ":not-reproduced-alone", first["what"] + " (seen in the batch run; did not fire again when re-run in a fresh process)", rp)
                 continue
+            if rp.get("inter"):
+                rp = shrink_inter(rp, lambda cand: bool(fires(kind, cand)), pool, budget, before_ops=True)
             # shrink the ops of every history (last first), keeping the final poll
             if "histories" in rp:
                 for hi in range(len(rp["histories"]) - 1, -1, -1):
@@ -808,6 +1042,8 @@ def settle_hits(run, sink, src, writers_tbl, cases, hists, nshard):
                     ops = ddmin(h["ops"], lambda sub: bool(sub or hi < len(rp["histories"]) - 1) and bool(fires(kind, with_ops(sub))), pool, budget)
                     rp = with_ops(ops)
                 rp["histories"] = [h for i, h in enumerate(rp["histories"]) if h["ops"] or i == len(rp["histories"]) - 1]
+            if rp.get("inter"):
+                rp = shrink_inter(rp, lambda cand: bool(fires(kind, cand)), pool, budget, before_ops=False)
             # shrink suggested filenames
             for path, name in name_slots(rp):
                 chars = ddmin(list(name), lambda sub: bool(fires(kind, set_slot(rp, path, "".join(sub)))), pool, budget)
@@ -818,6 +1054,49 @@ def settle_hits(run, sink, src, writers_tbl, cases, hists, nshard):
         pool.shutdown()
 
 
+def shrink_inter(rp, test, pool, budget, before_ops):
+    """Replays whose last op is an interleaved request.  before_ops: every EARLIER interleaved request is replaced by
+    the plain ops it contained (same effect on the queue), if the hit survives that.  Afterwards: the injected events of
+    the final request are reduced to a 1-minimal set, each moved to the smallest k that still fails."""
+    hs = rp["histories"]
+    last = hs[-1]
+    if not last["ops"] or last["ops"][-1][0] != "istatus":
+        return rp
+
+    def with_last_ops(ops):
+        return dict(rp, histories=hs[:-1] + [dict(last, ops=ops)])
+    if before_ops:
+        flat = []
+        for o in last["ops"][:-1]:
+            if o[0] == "istatus":
+                flat += [o[3][k] for k in sorted(o[3], key=int)]
+            else:
+                flat.append(o)
+        pre = [dict(h, ops=sum(([o[3][k] for k in sorted(o[3], key=int)] if o[0] == "istatus" else [o] for o in h["ops"]), [])) for h in hs[:-1]]
+        cand = dict(rp, histories=pre + [dict(last, ops=flat + [last["ops"][-1]])])
+        if cand != rp:
+            budget[0] -= 1
+            if test(cand):
+                return cand
+        return rp
+    req = last["ops"][-1]
+    items = sorted(req[3].items(), key=lambda kv: int(kv[0]))
+
+    def with_inj(its):
+        return with_last_ops(last["ops"][:-1] + [[req[0], req[1], req[2], dict(its)]])
+    items = ddmin(items, lambda sub: test(with_inj(sub)), pool, budget)
+    for i in range(len(items)):
+        k, o = items[i]
+        lo = int(items[i - 1][0]) + 1 if i else 1
+        for k2 in range(lo, int(k)):
+            cand = items[:i] + [(str(k2), o)] + items[i + 1:]
+            budget[0] -= 1
+            if test(with_inj(cand)):
+                items = cand
+                break
+    return with_inj(items)
+
+
 def shape_of(rp):
     """The replay without the (arbitrary) collection id of a snapshot case: keeps the fingerprint stable between runs."""
     if "snap_case" in rp:
@@ -825,6 +1104,11 @@ def shape_of(rp):
         c.pop("c", None)
         c.pop("decoys", None)
         return c
+    if rp.get("inter") and "histories" in rp:
+        t = json.dumps(rp, sort_keys=True)
+        for i, c in enumerate(sorted({c for h in rp["histories"] for c in h["collections"] if c != COLL})):
+            t = t.replace(c, "<collection%d>" % i)
+        return json.loads(t)
     return rp
 
 
